@@ -569,6 +569,34 @@ example : WFv21 c (fun _ => true) true 1 .p256 cb21Ex :=
              pk := by decide, single := fun h => absurd h (by decide) } }
 example : (bytesV21 cb21Ex).length = 12 + 4 + 64 + 64 := by decide +kernel
 
+/-! ## 6e. any sequence of `set_rkh` / `CertBlockV1.set_root_key_hash` calls: last write per slot wins, call order is irrelevant -/
+
+/-- after ANY admissible call sequence (slots 0..3, 32-byte hashes; gaps, repeats, overwrites, descending, on a built or parsed
+    table) slot `i` of the exported 4-slot table holds the last hash written to it, or its former content (zeros if none) -/
+theorem set_rkh_last_write_wins (l : List Bytes) (ops : List (Nat × Bytes)) (hw : WFtab l) (ho : WFops ops) :
+    ∃ l', setSeq l ops = .ok l' ∧ WFtab l' ∧ exportV1 l' = .ok (tbl l').flatten ∧
+      ∀ i, i < 4 → (tbl l')[i]? = some ((lastWrite ops i).getD ((tbl l)[i]?.getD Z32)) := by
+  obtain ⟨l', e, w, h⟩ := setSeq_last_write l ops hw ho
+  exact ⟨l', e, w, exportV1_tbl l' w, h⟩
+
+/-- two call sequences with the same last write per slot (e.g. permutations of writes to different slots) give the same table and RKTH -/
+theorem set_rkh_order_independent (l : List Bytes) (ops1 ops2 : List (Nat × Bytes)) (hw : WFtab l)
+    (h1 : WFops ops1) (h2 : WFops ops2) (hlw : ∀ i, i < 4 → lastWrite ops1 i = lastWrite ops2 i) :
+    (setSeq l ops1 >>= exportV1) = (setSeq l ops2 >>= exportV1) ∧ (setSeq l ops1 >>= rkthV1 c) = (setSeq l ops2 >>= rkthV1 c) :=
+  setSeq_order_indep c l ops1 ops2 hw h1 h2 hlw
+
+/-- the v1 certificate-block path for every call order: if the last write to slot `i` is the hash of root key `i` and no other slot is
+    written, the RKTH is `Spec.rotkh` of the ordered key list (= `RKHTv1.from_keys` = `Rot`, by `path_eq_spec_*`) -/
+theorem set_root_key_hash_any_order (hc : CryptoLaws c) (ks : List Key) (h : KeysOK .certBlock1 ks)
+    (ops : List (Nat × Bytes)) (ho : WFops ops) (hlw : ∀ i, i < 4 → lastWrite ops i = (ks.map (keyHash c))[i]?) :
+    (setSeq [] ops >>= rkthV1 c) = .ok (rotkh c .certBlock1 ks) := by
+  rw [rotkh_cb1]; exact setSeq_keys_any_order c hc ks h ops ho hlw
+
+/-- non-vacuity: signing slot 2 first, then 0, 1, 3, with an overwrite on the way -/
+example (a b d e x : Bytes) :
+    lastWrite [(2, d), (0, x), (0, a), (1, b), (3, e)] 0 = some a ∧ lastWrite [(2, d), (0, x), (0, a), (1, b), (3, e)] 2 = some d := by
+  simp [lastWrite]
+
 /-- the order of the keys matters (here: for every `c` that separates the two tables) — stated on the table -/
 theorem order_matters_example (k1 k2 : Key) : rkhTableV1 c [k1, k2] = rkhTableV1 c [k2, k1] →
     keyHash c k1 ++ keyHash c k2 = keyHash c k2 ++ keyHash c k1 := by
